@@ -45,6 +45,7 @@ class FakeBackend:
         self.plan = {}
         self.ticks = 0
         self.sync_calls = 0
+        self.api_calls = 0
         self.asyncs_since_sync = 0
         self.crashed = None
         self.page_size = None
@@ -221,6 +222,13 @@ class FakeBackend:
             self.hooks("api.enter", updates)
         has_sync = any(getattr(u, "_verif_sync", False) for u in updates) or (len(updates) == 0)
         plan = self.plan
+        # oracle-only fault plans (not modelled): API call number k of this invocation fails, whatever it carries
+        if plan.get("fail_any_call") is not None:
+            k_ = self.api_calls
+            self.api_calls += 1
+            if k_ == plan["fail_any_call"]:
+                self.calls.append((checkpoint_token, [self._ud(u) for u in updates], "fault"))
+                raise plan["fail_exc"]()
         # crash / fault decisions are taken per call that carries a synchronous update
         if has_sync:
             if plan.get("crash_tick") is not None and self.ticks == plan["crash_tick"]:
